@@ -225,12 +225,19 @@ Proof.
   rewrite E. rewrite andb_false_r. reflexivity.
 Qed.
 
+(* RetrieveMintInfo reads the seed (one more storage call), then the balance *)
+Definition after_seed (w : world) : world := fst (exec GetSeed false w).
+
 Theorem info_disabled_iff cfg w bal w1 :
-  run total_balance no_fault w = (w1, Done (Ok bal)) ->
+  run total_balance no_fault (after_seed w) = (w1, Done (Ok bal)) ->
   exists b, run (info_disabled cfg) no_fault w = (w1, Done (Ok b)) /\
             (b = true <-> 0 < c_max_balance cfg /\ c_max_balance cfg <= bal).
 Proof.
-  intros Hbal. unfold info_disabled. rewrite run_bind, Hbal. eexists. split; [reflexivity|].
+  intros Hbal. unfold info_disabled. rewrite run_do. unfold after_seed in Hbal.
+  destruct (exec GetSeed false w) as [w0 sd] eqn:E. cbn [fst] in Hbal.
+  assert (Hsd : exists u, sd = ROk u).
+  { unfold exec in E. cbn [is_call is_storage andb exec_db] in E. destruct w. cbn in E. inversion E. eexists. reflexivity. }
+  destruct Hsd as [u ->]. rewrite run_bind, Hbal. eexists. split; [reflexivity|].
   rewrite andb_true_iff, Z.ltb_lt, Z.leb_le. reflexivity.
 Qed.
 
@@ -267,8 +274,56 @@ Proof.
   apply Z.ltb_ge in Ha. rewrite Ha. sx. eexists. split; [reflexivity|]. repeat split.
 Qed.
 
-(* fees: each input is charged its own keyset's ppk, the total rounded up once *)
+(* fees: each input is charged its own keyset's ppk, the total rounded up once - in true integers, whatever the fees are, up to
+   the saturation of the sum at the largest uint (a fee no input can pay) *)
+Definition fee_of (mem_ks : list ksrow) (p : proof) : Z :=
+  match find_ks (p_ks p) mem_ks with Some k => k_fee k | None => 0 end.
+Definition true_ppk (mem_ks : list ksrow) (ins : list proof) : Z := tsum (map (fee_of mem_ks) ins).
+
+Lemma fold_sat_add mem_ks ins : forall acc,
+  (forall p, In p ins -> 0 <= fee_of mem_ks p) -> 0 <= acc <= two64 - 1 ->
+  fold_left (fun acc p => sat_add64 acc (fee_of mem_ks p)) ins acc = Z.min (acc + true_ppk mem_ks ins) (two64 - 1).
+Proof.
+  unfold true_ppk. induction ins as [|p r IH]; intros acc Hnn Ha; cbn [fold_left map].
+  - rewrite tsum_nil. lia.
+  - rewrite tsum_cons. assert (Hp : 0 <= fee_of mem_ks p) by (apply Hnn; left; reflexivity).
+    assert (Hr : 0 <= tsum (map (fee_of mem_ks) r)).
+    { apply tsum_nonneg. apply Forall_forall. intros x Hx. apply in_map_iff in Hx as [q [<- Hq]]. apply Hnn. right. exact Hq. }
+    rewrite IH; [|intros q Hq; apply Hnn; right; exact Hq|unfold sat_add64; lia].
+    unfold sat_add64. lia.
+Qed.
+
+Lemma ceil_div_1000 s : 0 <= s -> (if s mod 1000 =? 0 then s / 1000 else s / 1000 + 1) = (s + 999) / 1000.
+Proof.
+  intros Hs. pose proof (Z.div_mod s 1000 ltac:(lia)) as Hd. pose proof (Z.mod_pos_bound s 1000 ltac:(lia)) as Hm.
+  destruct (s mod 1000 =? 0) eqn:E; [apply Z.eqb_eq in E|apply Z.eqb_neq in E].
+  - apply Z.div_unique with (r := 999); lia.
+  - apply Z.div_unique with (r := s mod 1000 - 1); lia.
+Qed.
+
 Theorem tx_fees_per_keyset mem_ks ins :
-  tx_fees mem_ks ins =
-  (fold_left (fun acc p => add64 acc (match find_ks (p_ks p) mem_ks with Some k => k_fee k | None => 0 end)) ins 0 + 999) / 1000.
-Proof. reflexivity. Qed.
+  (forall p, In p ins -> 0 <= fee_of mem_ks p) ->
+  tx_fees mem_ks ins = (Z.min (true_ppk mem_ks ins) (two64 - 1) + 999) / 1000.
+Proof.
+  intros Hnn. unfold tx_fees. fold (fee_of mem_ks).
+  change (fun acc p => sat_add64 acc (match find_ks (p_ks p) mem_ks with Some k => k_fee k | None => 0 end))
+    with (fun acc p => sat_add64 acc (fee_of mem_ks p)).
+  rewrite (fold_sat_add mem_ks ins 0 Hnn) by (unfold two64; lia). cbv zeta. rewrite Z.add_0_l.
+  apply ceil_div_1000.
+  assert (0 <= true_ppk mem_ks ins).
+  { unfold true_ppk. apply tsum_nonneg. apply Forall_forall. intros x Hx. apply in_map_iff in Hx as [q [<- Hq]]. apply Hnn. exact Hq. }
+  unfold two64. lia.
+Qed.
+
+(* before fix 99983ec the sum and the +999 were plain uint additions: two inputs of a keyset whose input_fee_ppk is 2^63-1 (the
+   largest value the admin RPC accepts) were charged nothing *)
+Definition tx_fees_wrapping (mem_ks : list ksrow) (ins : list proof) : Z :=
+  add64 (fold_left (fun acc p => add64 acc (fee_of mem_ks p)) ins 0) 999 / 1000.
+
+Example tx_fees_wrapping_refuted :
+  let ks := [mkKs 0 9223372036854775807 true] in
+  let p := mkProof 1 64 0 (CSig 0 64 1) 0 false true false in
+  tx_fees_wrapping ks [p; p] = 0 /\ tx_fees ks [p; p] = 18446744073709552.
+Proof. vm_compute. split; reflexivity. Qed.
+
+
